@@ -1374,6 +1374,17 @@ pub fn run_chain(s: &StateSpec, prefix: &[String], ev_label: &str, verbose: bool
                 if is_data && marker.is_none() && ev.frames.len() == 1 {
                     vios.push(("C09.legal-content-lost".into(), key.clone(), format!("{} / {}: the DATA payload was not delivered to the application", s.name, ev.label)));
                 }
+                // ... and nothing but the data proper: the chunk that carries the marker is as long as the frame's data
+                // (Pad Length octet and padding stripped, whatever the Pad Length - also 0)
+                if let (true, Some(m), 1) = (is_data, &marker, ev.frames.len()) {
+                    let want = ev.frames.iter().find_map(|f| if let Ok(Parsed::Data { data, .. }) = f.parse() { Some(data.len()) } else { None }).unwrap_or(0);
+                    let got: Option<usize> = m.split(" delivered ").nth(1).and_then(|x| x.split(' ').next()).and_then(|x| x.parse().ok());
+                    if let Some(got) = got {
+                        if got != want {
+                            vios.push(("C09.legal-content-altered".into(), key.clone(), format!("{} / {}: the frame carries {} octets of data, the application was handed a chunk of {} octets", s.name, ev.label, want, got)));
+                        }
+                    }
+                }
             }
             if goaway.is_none() && s.followup && t.conn_result.is_none() {
                 if let Some(why) = followup(&mut t, &mut app) {
